@@ -379,8 +379,8 @@ def misc_job(ck, prog, natbin, quick):
     native.close()
 
 
-def main():
-    ck = Check("C11")
+def prepare(ck):
+    """configure `ck` and return the list of jobs of this property's exploration"""
     ck.crate = "hconv"
     quick = ck.tier == "quick"
     if quick:
@@ -409,7 +409,12 @@ def main():
         ck.programs.add("FromMeta for %s" % t)
         jobs.append(lambda sub, t=t, D=D: int_job(sub, prog, natbin, t, D, quick))
     jobs.append(lambda sub: misc_job(sub, prog, natbin, quick))
-    ck.run_jobs(jobs)
+    return jobs
+
+
+def main():
+    ck = Check("C11")
+    ck.run_jobs(prepare(ck))
     ck.require_reached(["ok", "err", "lit:Int:ok", "lit:Str:ok", "lit:Int:err", "wrongform", "bool:ok", "char:ok", "string:ok"])
     ck.finish()
 
